@@ -6,11 +6,13 @@ Cases (JSON; the trees are those of vlib/c20_lib.py):
   {"kind": "sem",  "com": K, "init": [v0..v5]}                  nat program through imperative.imp.eval_Sem
   {"kind": "hvcg", "com": K, "pre": C, "post": C, "sseed": n}   nat program through imperative.imp.vcg_norm / vcg_tactic
 """
+import contextlib
 import re
+import signal
 
 from vlib import harness
 from vlib import c20_lib as L
-from vlib.harness import time_limit, Timeout, CaseInvalid, SelfTestError
+from vlib.harness import Timeout, CaseInvalid, SelfTestError
 from vlib.c20_lib import Unsupported, ReadError
 
 ID = 'C20'
@@ -60,6 +62,22 @@ NSLOTS = 6
 PARAMS = ['A', 'B']
 
 R = {}      # code under test, filled by setup()
+
+
+@contextlib.contextmanager
+def time_limit(seconds):
+    """Like harness.time_limit, but counts CPU time of this process (ITIMER_PROF), so that a busy machine does not turn
+    cheap cases into time-outs (and runs stay reproducible).  The timer repeats every second after the first expiry
+    because an exception raised inside a GC callback or a __del__ is swallowed by the interpreter."""
+    def handler(signum, frame):
+        raise Timeout()
+    old = signal.signal(signal.SIGPROF, handler)
+    signal.setitimer(signal.ITIMER_PROF, seconds, 1.0)
+    try:
+        yield
+    finally:
+        signal.setitimer(signal.ITIMER_PROF, 0)
+        signal.signal(signal.SIGPROF, old)
 
 
 def setup():
@@ -927,7 +945,34 @@ def check_hvcg(case, H):
 
 
 # ---------------------------------------------------------------- case interface
+_ROOMY = {'fn': None, 'inside': False}
+
+
+def with_roomy_stack(f):
+    """Performance only.  CPython 3.12 keeps interpreter frames in 16 KB chunks that are mmap'ed / munmap'ed whenever the
+    call depth crosses a chunk boundary; Hypothesis and the recursive term functions of holpy cross one constantly
+    (hundreds of mmap/munmap pairs per case, very slow on a busy machine).  Calling through a function with ~70000
+    local variables makes the interpreter allocate one 1 MB chunk whose free half serves all deeper frames."""
+    if _ROOMY['inside']:
+        return f()
+    if _ROOMY['fn'] is None:
+        try:
+            ns = {}
+            src = 'def roomy(f, %s):\n    return f()\n' % ', '.join('a%d=None' % i for i in range(70000))
+            exec(compile(src, '<roomy-stack>', 'exec'), ns)
+            _ROOMY['fn'] = ns['roomy']
+        except Exception:
+            _ROOMY['fn'] = lambda g: g()
+    _ROOMY['inside'] = True
+    try:
+        return _ROOMY['fn'](f)
+    finally:
+        _ROOMY['inside'] = False
+
+
 def run_case(case, H):
+    if not _ROOMY['inside']:
+        return with_roomy_stack(lambda: run_case(case, H))
     if not isinstance(case, dict):
         raise CaseInvalid('case')
     kind = case.get('kind')
@@ -1196,7 +1241,9 @@ def strategies(kind):
         return nkext
 
     if kind == 'sem':
-        g = st.recursive(st.one_of(neq, neq, neq, nord, neq, st.just(['true']), neq, neq, neq), ncext, max_leaves=2)
+        # eval_Sem only decides guards built from == / != (compound and ordered guards end in ConvException)
+        g = st.one_of(*([neq] * 6 + [nord, st.just(['true']), st.tuples(st.sampled_from(['&', '|']), neq, neq).map(list)]
+                        + [neq] * 6))
         nlf = st.recursive(st.one_of(nasg, nasg, st.just(['skip']), nasg, nasg), nkext_with(g), max_leaves=4)
 
         @st.composite
@@ -1320,7 +1367,7 @@ def _replace(t, path, new):
 # ---------------------------------------------------------------- exploration
 COUNTS = {
     'quick': {'lf': 1200, 'tpl': 1400, 'rl': 600, 'cond': 2400, 'sem': 160, 'hvcg': 240},
-    'thorough': {'lf': 50000, 'tpl': 50000, 'rl': 30000, 'cond': 70000, 'sem': 8000, 'hvcg': 8000},
+    'thorough': {'lf': 40000, 'tpl': 40000, 'rl': 20000, 'cond': 60000, 'sem': 5000, 'hvcg': 5000},
 }
 
 
@@ -1336,7 +1383,7 @@ def shards(tier):
 def run_shard(desc, seed, tier, H):
     def body(case):
         run_case(case, H)
-    harness.hyp_run(strategies(desc['kind']), body, desc['n'], seed)
+    with_roomy_stack(lambda: harness.hyp_run(strategies(desc['kind']), body, desc['n'], seed))
 
 
 # ---------------------------------------------------------------- self-test of the oracles
